@@ -12,6 +12,7 @@ pub mod c07;
 pub mod c13;
 pub mod c14;
 pub mod c15;
+pub mod c16;
 
 pub trait Check: UnitRunner {
   fn id(&self) -> &'static str;
@@ -34,6 +35,7 @@ pub fn make(id: &str, tier: Tier) -> Option<Box<dyn Check>> {
     "C13" => Some(Box::new(c13::C13::new(tier))),
     "C14" => Some(Box::new(c14::C14::new(tier))),
     "C15" => Some(Box::new(c15::C15::new(tier))),
+    "C16" => Some(Box::new(c16::C16::new(tier))),
     _ => None,
   }
 }
